@@ -174,6 +174,13 @@ func (w *World) doGov(in Intent) {
 					c.Commission = d
 				}
 			}
+			// the proposal is written from the operators' own token table (the spelling of the contract addresses
+			// there is the one the external chains' events use), not copied back from the hub
+			for _, t := range w.Cfg.Tokens {
+				if t.ID == c.Id && t.Chain == c.ChainId && strings.EqualFold(t.ExtID, c.ExternalTokenId) {
+					c.ExternalTokenId = t.ExtID
+				}
+			}
 			out = append(out, &c)
 		}
 		msg, err := govtypes.NewMsgSubmitProposal(mhub2types.NewTokenInfosChangeProposal(&mhub2types.TokenInfos{TokenInfos: out}), deposit, proposer.Addr)
